@@ -704,7 +704,15 @@ fn after_failures_probe(rep: &mut Report) {
         check(rep, "a search over a value that refuses three levels down");
         let r = guarded(|| rt.compile("isqrt(n)").and_then(|e| e.search(rcvar_of(&json!({"n": -16})))));
         if r.is_ok() {
-            rep.violation("C13/harness", json!({"problem": "the panicking custom function did not panic", "round": round}));
+            if round == 0 {
+                rep.harness_error("the panicking custom function of the after-failures probe did not panic on its first call".to_string());
+            } else {
+                // it panicked in round 0 and no longer does: the same call behaves differently after the earlier one
+                rep.violation(
+                    "C13/result-depends-on-history/after-a-failed-call",
+                    json!({"expression": "isqrt(n)", "document": {"n": -16}, "first_call": "panic inside the custom function", "later_call": r.as_ref().ok().map(fingerprint), "round": round}),
+                );
+            }
         }
         check(rep, "a custom function that panicked (caught by the caller)");
         let _ = guarded(|| rt.compile("sort_by(@, &isqrt(n))").and_then(|e| e.search(rcvar_of(&json!([{"n": 4}, {"n": -1}, {"n": 9}])))));
